@@ -27,11 +27,12 @@ LEVEL_TEXT = (
     "block windows built by ArrayOverlapLayer (previous block's last dl cells ++ block ++ next block's first dr "
     "cells), of _trim, and of ensure_minimum_chunksize: for every chunk list and asymmetric depth, trimming the "
     "declared overlap chunks gives back the chunks; when every chunk is at least as long as the depth, trimming "
-    "the overlapped blocks gives back the blocks (trim ∘ overlap = id), each overlapped block is the contiguous "
-    "window [start-dl, stop+dr) of the axis cut at the array ends (so a depth-local function sees what it sees "
-    "on the whole array); ensure_minimum_chunksize keeps the total, makes every chunk >= size and raises only "
-    "when the axis is shorter than size. The boundary modes, map_overlap's assembly and sliding_window_view are "
-    "validated against NumPy (np.pad, explicit stencils), not proved."
+    "the overlapped blocks gives back the blocks (trim ∘ overlap = id), each overlapped block has exactly the "
+    "declared size, and for every function whose output at a cell depends on at most dl cells before and dr cells "
+    "after it, mapping it over the overlapped blocks and trimming equals the function on the whole axis "
+    "(map_overlap_eq_global, boundary 'none'); ensure_minimum_chunksize keeps the total, makes every chunk >= size "
+    "and raises only when the axis is shorter than size. The boundary modes other than 'none' (index maps diffed "
+    "against np.pad), rechunking and sliding_window_view are validated against NumPy, not proved."
 )
 LEVEL_NOTE = (
     "Trusted: Lean kernel; the hand-written model (diffed against the real helpers and against the computed blocks "
